@@ -622,9 +622,12 @@ class simulation_model():
         mymemo = self.memo[equation]
 
         # t-dt chains drift in binary floating point (0.4-0.1-0.1-0.1-0.1 = 2.8e-17, not 0): bring the time
-        # back onto the decimal grid, otherwise a stock takes an extra integration step before it reaches starttime
-        if isinstance(arg, float):
-            arg = round(arg, 10)
+        # back onto the grid starttime + k*dt, otherwise a stock takes an extra integration step before it reaches
+        # starttime. Decimal grids keep their decimal labels (0.3); grids like dt = 1/3 keep starttime + k*dt.
+        if isinstance(arg, float) and self.dt:
+            on_grid = self.starttime + round((arg - self.starttime) / self.dt) * self.dt
+            if abs(on_grid - arg) < 1e-9:
+                arg = round(on_grid, 10) if abs(round(on_grid, 10) - on_grid) < 1e-12 else on_grid
 
         if arg in mymemo.keys():
             return mymemo[arg]
